@@ -856,6 +856,16 @@ func TestVerif_C04(t *testing.T) {
 	chCoq, _ := env.c04Channels(t, res)
 	sb.WriteString("From KM Require Import Model.OIDCChannels.\n")
 	sb.WriteString(chCoq)
+	// ---- 6b. the carrier of a presentation: every consumer x every carrier x every artefact kind (c04carrier.go)
+	{
+		var storageConsumers []*c04Consumer
+		for _, c := range consumers {
+			if c.kind == "storage" {
+				storageConsumers = append(storageConsumers, c)
+			}
+		}
+		sb.WriteString(env.c04CarrierSection(t, res, prod, storageConsumers))
+	}
 	// ---- 7. peer instances: the artefacts of another member of the deployment, under every shared string setting
 	sb.WriteString(env.c04PeerSection(t, res))
 	if err := ioutil.WriteFile(filepath.Join(verifOut(), "CasesC04.v"), []byte(sb.String()), 0644); err != nil {
